@@ -7,6 +7,10 @@ COMPOUNDS = ["H2O@1", "NaCl@2.16", "D2O@1n", "Fe2O3@5.24", "C12H22O11@1.59", "Si
              "WC@15.6", "W", "V2O5@3.36", "V", "Mo", "Mg",
              "2Fe", "(Ni)2", "FeFe", "3Si2"]            # one element written with a count, a group, twice: it still has the element's density
 WITH_DENS = [c for c in COMPOUNDS if "@" in c or c in ("Au", "Co", "Si", "Cr", "Fe", "Ni", "Ti", "W", "V", "Mo", "Mg", "2Fe", "(Ni)2", "FeFe", "3Si2")]
+# the same composition with another density (ice and water, quartz and silica glass, ...): two different materials
+TWINS = {"H2O@1": "H2O@0.92", "SiO2@2.2": "SiO2@2.65", "D2O@1n": "D2O@1.0", "Fe2O3@5.24": "Fe2O3@4.9", "NaCl@2.16": "NaCl@1.9",
+         "WC@15.6": "WC@14", "Al2O3@3.95": "Al2O3@3.6", "Si": "Si@2.0", "Fe": "Fe@7.0", "C12H22O11@1.59": "C12H22O11@1.2",
+         "Au": "Au@17", "H2O": "H2O@1"}
 WKW = ["wt%", "%wt", "w%", "%w", "weight%", "%weight", "mass%", "%mass", "m%", "%m"]
 VKW = ["vol%", "%vol", "v%", "%v", "volume%", "%volume"]
 MASSU = ["kg", "g", "mg", "ug", "ng"]
@@ -86,6 +90,8 @@ def tasks(ctx, quick):
             if rng.random() < 0.15:
                 e = ["mixw", [[["str", rng.choice(WITH_DENS)], 1], [["str", rng.choice(WITH_DENS)], rng.choice([1, 9, 0.1])]]]   # itself a mixture
             comps.append([e, rng.choice(quantities)])
+        if k >= 2 and i % 6 == 1 and comps[0][0][0] == "str" and comps[0][0][1] in TWINS:
+            comps[-1][0] = ["str", TWINS[comps[0][0][1]]]       # the first material again, with another density
         if i % 5 == 2:      # a component of quantity zero vanishes whether or not its density is known
             comps.insert(rng.randrange(len(comps) + 1), [["str", rng.choice(["H2O", "CaCO3", "C2H6O", "Fe2O3@5.24"])], 0])
         t = {"kind": "mix", "mode": mode, "comps": comps}
@@ -111,6 +117,8 @@ def tasks(ctx, quick):
             spec = abs_spec(rng, nparts)
         else:
             spec = layer_spec(rng, nparts)
+        if i % 7 == 3 and spec["parts"][0]["f"] in TWINS:
+            spec["parts"][-1]["f"] = TWINS[spec["parts"][0]["f"]]   # the first material again, with another density
         r = rng.random()
         if r < 0.25 and form in ("wt%", "vol%"):
             # nested mixture as a component, possibly with its own density tag
